@@ -1,5 +1,6 @@
 import GenjaxModel.Proofs.GfiRegen
 import GenjaxModel.Proofs.GfiAssess
+import GenjaxModel.Proofs.GfiAssessCond
 /-!
 # C05 — traces stay coherent under any history of edits; update weights telescope
 -/
@@ -13,7 +14,8 @@ theorem C05_history_coherent (g : GF) (t : Tr R) (a : List Val) (ht : g.Coh P a 
     g.Coh P a' t' := history_coh P cfg g t a ht ops t' a' h
 
 /-- hence score = -assess(choices; recorded args) and retval = the program's return value after
-    any history (`_partial`: Cond-free programs, see C01) -/
+    any history (`_partial`: Cond-free programs, see C01; superseded by
+    `C05_history_score_assess` below) -/
 theorem C05_history_score_assess_partial (g : GF) (hg : g.condFree = true)
     (t : Tr R) (a : List Val) (ht : g.Coh P a t) (ops : List Op)
     (t' : Tr R) (a' : List Val) (h : applyOps P cfg g t a ops = some (t', a'))
@@ -34,5 +36,35 @@ theorem C05_update_telescope (hc : cfg.condSwitchCorrection = true)
     (us : List (Option CM × List Val)) (t' : Tr R) (w : R)
     (h : applyUpdates P cfg g t us = some (t', w)) : w = t.score + -t'.score :=
   updates_telescope P cfg hc g a t ht us t' w h
+
+/-- score = -assess(choices; recorded args) and retval = the program's return value after any
+    history of update / regenerate steps — every program, Cond at any depth.  `hx` =
+    "`get_choices()` does not raise" on the final trace.
+    Supersedes `C05_history_score_assess_partial`. -/
+theorem C05_history_score_assess (g : GF)
+    (t : Tr R) (a : List Val) (ht : g.Coh P a t) (ops : List Op)
+    (t' : Tr R) (a' : List Val) (h : applyOps P cfg g t a ops = some (t', a'))
+    (x : CM) (hx : t'.choices = some x) :
+    g.assess P x a' = some (-t'.score, t'.retval) :=
+  coh_assess P g a' t' (history_coh P cfg g t a ht ops t' a' h) x hx
+
+/-- for programs whose Cond branches are compatible and an initial trace in the shape the
+    operations build (`GF.Canon`, e.g. from `simulate` / `generate`), the final trace always has a
+    choice map -/
+theorem C05_history_score_assess_compat (g : GF) (hs : g.skel.isSome)
+    (t : Tr R) (a : List Val) (hcan : g.Canon t) (ht : g.Coh P a t) (ops : List Op)
+    (t' : Tr R) (a' : List Val) (h : applyOps P cfg g t a ops = some (t', a')) :
+    ∃ x, t'.choices = some x ∧ g.assess P x a' = some (-t'.score, t'.retval) := by
+  obtain ⟨x, hx⟩ := choices_of_skel (history_choices_skel P cfg g t a hcan ht ops t' a' h) hs
+  exact ⟨x, hx, C05_history_score_assess P cfg g t a ht ops t' a' h x hx⟩
+
+/-- non-vacuity: simulate the Cond program `condExG`, then update (switching the branch) and
+    regenerate `"y"`; the final trace has a choice map -/
+example : ∃ t t' a' x, condExG.simulate condExP [.num 1, .num 7] = some t ∧
+    applyOps condExP Cfg.spec condExG t [.num 1, .num 7]
+      [.update (some (.node (.cons "x" (.leaf (.num 10)) .nil))) [.num 0, .num 7],
+       .regenerate (.str "y") [.num 0, .num 7]] = some (t', a') ∧
+    t'.choices = some x :=
+  ⟨_, _, _, _, rfl, rfl, rfl⟩
 
 end Genjax
